@@ -361,6 +361,67 @@ func (w *Walker) minorPieceMate() string {
 	return ""
 }
 
+// epCheckSkeleton: the side to move has a pawn on its second rank whose double step gives check and can be taken
+// en passant (the capture removes the checking piece although it does not land on its square); a few other
+// pieces around; colour-mirrored half of the time
+func (w *Walker) epCheckSkeleton() string {
+	for tries := 0; tries < 2000; tries++ {
+		var board [64]byte
+		for i := range board {
+			board[i] = ' '
+		}
+		f := 1 + w.rng.Intn(6)
+		dk := []int{-1, 1}[w.rng.Intn(2)]
+		dp := []int{-1, 1}[w.rng.Intn(2)]
+		sq := func(file, rank int) int { return (rank-1)*8 + file }
+		board[sq(f, 2)] = 'P'
+		board[sq(f+dk, 5)] = 'k'
+		board[sq(f+dp, 4)] = 'p'
+		wk := w.rng.Intn(64)
+		if board[wk] != ' ' || wk == sq(f, 3) || wk == sq(f, 4) || SquareDistance(Square(wk), Square(sq(f+dk, 5))) < 2 {
+			continue
+		}
+		board[wk] = 'K'
+		kinds := "QRBNPqrbnp"
+		for i, n := 0, w.rng.Intn(5); i < n; i++ {
+			x := w.rng.Intn(64)
+			c := kinds[w.rng.Intn(len(kinds))]
+			if board[x] != ' ' || x == sq(f, 3) || x == sq(f, 4) || ((c == 'P' || c == 'p') && (x < 8 || x >= 56)) {
+				continue
+			}
+			board[x] = c
+		}
+		fen := compressFenBoard(board) + " w - - 0 1"
+		p, err := position.NewPositionFen(fen)
+		if err != nil || p == nil || p.HasCheck() || p.IsAttacked(p.KingSquare(Black), White) {
+			continue
+		}
+		// the double step must be legal, give check, and the en-passant capture must be a legal answer
+		ok := false
+		for _, m := range w.legalMoves(p) {
+			if int(m.From()) == sq(f, 2) && int(m.To()) == sq(f, 4) {
+				q := *p
+				q.DoMove(m)
+				if q.HasCheck() {
+					for _, r := range w.legalMoves(&q) {
+						if r.MoveType() == EnPassant {
+							ok = true
+						}
+					}
+				}
+			}
+		}
+		if !ok {
+			continue
+		}
+		if w.rng.Bool() {
+			fen = mirrorFen(fen)
+		}
+		return fen
+	}
+	return ""
+}
+
 // castlingSkeleton: kings and rooks on their home squares with the matching rights and a handful of other
 // pieces: castling paths are free, checks are frequent
 func (w *Walker) castlingSkeleton() string {
